@@ -371,7 +371,8 @@ class Ctx:
         if len(self.cov["samples"]) < limit:
             self.cov["samples"].append(obj)
 
-    def coq(self, timeout=1500, extra_targets=()):
+    def coq(self, timeout=1500, extra_targets=(), imports=()):
+        extra_targets = list(extra_targets) + [i.replace(".", "/") + ".vo" for i in imports]
         r = coq_check(self.prop, timeout=timeout, extra_targets=extra_targets)
         self.cov["obligations"] += r["obligations"]
         self.cov["discharged"] += r["discharged"]
